@@ -88,13 +88,44 @@ def solver_choice(case):
     return None, 'lp'
 
 
+def nearby(xs, delta):
+    """the point and the corners of the box of half-width delta around it (coordinate moves only beyond 6 entries)"""
+    import itertools
+    xs = np.asarray(xs, dtype=float)
+    yield xs
+    if len(xs) <= 6:
+        for sg in itertools.product((-1.0, 1.0), repeat=len(xs)):
+            yield xs + delta * np.array(sg)
+    else:
+        for j in range(len(xs)):
+            for sg in (-1.0, 1.0):
+                xp = xs.copy()
+                xp[j] += sg * delta
+                yield xp
+
+
 def evaluate(case, xs, objval, kind):
-    """NumPy re-evaluation of every user constraint and the objective at xs; returns (fail or None, focus_active)"""
+    """NumPy re-evaluation of every user constraint and the objective at xs; returns (fail or None, focus_active).
+    The solvers return points that satisfy the compiled rows only up to their feasibility tolerance, and a residual of the user's
+    inequality is not a distance where the function is steep (y*z with a large z, roots at 0, s*exp(x/s) at s = 0): a constraint
+    counts as violated only if it is violated at the returned point and at every corner of the box of relative half-width tol
+    around it; the objective value has to lie in the range the user objective takes over that box."""
     tol = 1e-6 if kind == 'lp' else 5e-5
+    delta = tol * (1 + float(np.max(np.abs(xs)))) if len(xs) else tol
     res = detmodel.residuals(case, xs)
     worst = None
-    for name, viol, scale in res:
-        if viol > tol * scale:
+    bad = [(i, name, viol, scale) for i, (name, viol, scale) in enumerate(res) if not viol <= tol * scale]
+    if bad:
+        with np.errstate(all='ignore'):
+            near = []
+            for xp in nearby(xs, delta):
+                try:
+                    near.append(detmodel.residuals(case, xp))
+                except (ValueError, FloatingPointError, ZeroDivisionError):
+                    pass
+        for i, name, viol, scale in bad:
+            if any(len(r) == len(res) and r[i][1] <= tol * r[i][2] for r in near):
+                continue
             if worst is None or viol / scale > worst[1] / worst[2]:
                 worst = (name, viol, scale)
     if worst is not None:
@@ -104,6 +135,17 @@ def evaluate(case, xs, objval, kind):
             worst[0], worst[1], np.round(xs, 6).tolist())), False
     ov = detmodel.objective_value(case, xs)
     if abs(ov - objval) > 10 * tol * (1 + abs(ov)):
+        with np.errstate(all='ignore'):
+            vals = []
+            for xp in nearby(xs, delta):
+                try:
+                    v = float(detmodel.objective_value(case, xp))
+                except (ValueError, FloatingPointError, ZeroDivisionError):
+                    continue
+                if np.isfinite(v):
+                    vals.append(v)
+        if vals and min(vals) - 10 * tol * (1 + abs(min(vals))) <= objval <= max(vals) + 10 * tol * (1 + abs(max(vals))):
+            return None, False
         oa = case['obj'].get('atom')
         return ('objective:%s' % (oa['atom'] if oa else 'affine'),
                 'model.get()=%.9g but the user objective evaluates to %.9g at the returned point x=%s' % (
@@ -127,6 +169,8 @@ class C06(Prop):
             'at x.get() and of the user objective against model.get(). Non-trivial = solved, and the focus constraint is active '
             'or the objective contains an atom; distinct by IR hash.')
     assumptions = ['residual tolerance 1e-6*(scale) for LP/MILP (HiGHS), 5e-5*(scale) when ECOS/Gurobi solve a conic program',
+                   'a constraint is violated only if it is violated at the returned point and at all corners of the box of relative half-width tol around it; '
+                   'model.get() has to lie in the range of the user objective over that box (steep functions: y*z with large z, roots at 0, s*exp(x/s) at s=0)',
                    'models reported infeasible/failed by the solver are skipped; a bounded feasible model reported unbounded by an LP '
                    'solver is a violation (dropped constraint/objective)']
     crash_is_violation = False
